@@ -1,0 +1,23 @@
+//! Verification-only facades (compiled only with `--cfg libp2p_verif`). Forwarding only.
+
+use std::time::Duration;
+
+use futures::FutureExt;
+use libp2p_core::Multiaddr;
+
+use crate::connection::pool::{concurrent_dial::PendingDial, dial_ranker};
+
+/// Runs the real smart-dial ranking over `addrs` (each wrapped in a never-ready dial future).
+pub fn rank_dials(addrs: Vec<Multiaddr>) -> Vec<(Duration, Multiaddr)> {
+    let dials = addrs
+        .into_iter()
+        .map(|addr| PendingDial {
+            addr,
+            fut: futures::future::pending().boxed(),
+        })
+        .collect();
+    dial_ranker::rank_dials(dials)
+        .into_iter()
+        .map(|(delay, dial)| (delay, dial.addr))
+        .collect()
+}
